@@ -35,8 +35,11 @@ def make_workbook(rng):
     s1 = {'A1': rng.randrange(1, 9), 'A2': rng.randrange(1, 9) + 0.5, 'A3': rng.randrange(-5, 5), 'A5': 'txt',
           'B1': '=A1+A2', 'B2': '=B1*2-A3', 'B3': '=SUM(A1:A3)', 'B4': '=IF(A1>A3,B1,B2)', 'B5': '=A5&"-"&A1',
           'C1': '=1/A4', 'C2': '=IFERROR(C1,-1)', 'C3': '=SUM(A:A)', 'C4': '=T2!A1+B1', 'C5': '=A4+1', 'D1': '=B3>A1', 'D2': '=SUM(B1:B2,C4)',
-          'D3': '=IF(D1,"y","n")', 'D4': '=MAX(A1:B3)'}
-    s2 = {'A1': rng.randrange(10, 20), 'A2': '=A1*S1!A1', 'B1': '=S1!B2+A2', 'B2': 'k', 'C1': '=SUM(S1!A1:A3)+A1'}
+          'D3': '=IF(D1,"y","n")', 'D4': '=MAX(A1:B3)',
+          # references reaching beyond the used range (rows 1-5, columns A-D): single cells and areas
+          'D5': '=A9+10', 'E6': '=SUM(A1:A12)', 'E1': '=IF(G12="x",1,0)', 'E2': '=COUNTBLANK(A1:A12)', 'E3': '=B20&"|"', 'E4': '=SUM(E7,A9,1)',
+          'E5': '=MAX(A7:B9,0)'}
+    s2 = {'A1': rng.randrange(10, 20), 'A2': '=A1*S1!A1', 'B1': '=S1!B2+A2', 'B2': 'k', 'C1': '=SUM(S1!A1:A3)+A1', 'C2': '=D5+A7', 'C3': '=SUM(A1:A7)+COUNT(S1!A7:A12)'}
     return wbspec.spec(wbspec.sheet('S1', s1), wbspec.sheet('T2', s2))
 
 
